@@ -32,6 +32,9 @@ func ConvertRequest(ctx *fasthttp.RequestCtx, r *http.Request, forServer bool) e
 		r.ProtoMajor = 1
 	}
 	r.ProtoMinor = 1
+	if r.Proto == "HTTP/1.0" {
+		r.ProtoMinor = 0
+	}
 	r.ContentLength = int64(len(body))
 	r.RemoteAddr = ctx.RemoteAddr().String()
 	r.Host = b2s(ctx.Host())
@@ -58,6 +61,9 @@ func ConvertRequest(ctx *fasthttp.RequestCtx, r *http.Request, forServer bool) e
 		switch sk {
 		case "Transfer-Encoding":
 			r.TransferEncoding = append(r.TransferEncoding, sv)
+		case fasthttp.HeaderHost:
+			// Like net/http: the Host header is promoted to r.Host
+			// and removed from the header map.
 		default:
 			if sk == fasthttp.HeaderCookie {
 				sv = strings.Clone(sv)
